@@ -3,6 +3,7 @@ package c35
 import (
 	"fmt"
 	"os"
+	"runtime"
 	"strings"
 	"testing"
 	"time"
@@ -22,21 +23,25 @@ import (
 
 const rowsBatch = 128 // server/handler.go
 
-// Findings (see notes/C35.md).
+// Findings (see notes/C35.md and notes/C35.findings.json).
 const (
-	// binary protocol: fractional seconds of TIMESTAMP(n) and TIME columns are cut off by a
-	// client that honours the column metadata, because schemaToFields sets Decimals only
-	// for DATETIME.
-	kfTemporalDecimals = "C35-bin-temporal-decimals"
+	// binary protocol: fractional seconds of TIMESTAMP(n) columns are cut off by a client that
+	// honours the column metadata, because schemaToFields sets Decimals only for DATETIME.
+	kfTimestampDecimals = "C35-bin-timestamp-decimals"
+	// the same for TIME columns (TimespanType has no precision to announce).
+	kfTimeDecimals = "C35-bin-time-decimals"
 	// value-row pipeline: a filter `x >= y` / `x <= y` evaluated on value rows is TRUE when
 	// an operand is NULL (comparison.CompareValue returns 0 for NULL operands), so the
 	// client receives rows the engine does not produce in process.
 	kfValueRowNullCmp = "C35-valuerow-null-cmp"
-	// FOUND_ROWS() after a SELECT that failed while evaluating its select list is 1 for a
-	// client and 0 in process: the handler defers the top-level projection, so the row
-	// iterator (which feeds FOUND_ROWS) has already counted the row when the projection fails.
-	kfFoundRowsAfterFail = "C35-found-rows-after-failed-select"
 )
+
+// Not a finding, but outside what the statement pins down: FOUND_ROWS() right after a
+// SELECT that failed while evaluating its select list is 1 for a client and 0 in process
+// (the handler defers the top-level projection, so the row iterator that feeds FOUND_ROWS
+// has already counted the row when the projection fails). What the counter holds after a
+// failed statement is not defined by MySQL either, so the search does not ask for it.
+const unpinnedFoundRowsAfterFail = "unpinned:found-rows-after-failed-statement"
 
 // ---------------------------------------------------------------------------------------
 // one case = one fixture + one server
@@ -46,15 +51,17 @@ type env struct {
 	srv   *srvfx.Server
 	found bool // clients connect with CLIENT_FOUND_ROWS
 	multi bool // clients connect with CLIENT_MULTI_STATEMENTS (text statements then go through ComMultiQuery)
+	base  int  // goroutines before the case built anything
 }
 
 // newEnv builds the engine over an in-memory provider with the database d (as fx.New does)
 // plus the value-row database v (vrtab.go).
 func newEnv(found bool, vseed uint64) *env {
+	base := runtime.NumGoroutine()
 	db := memory.NewDatabase("d")
 	pro := memory.NewDBProvider(db, newVrDB(vseed))
 	eng := sqle.New(analyzer.NewDefault(pro), &sqle.Config{})
-	return &env{f: &fx.Fixture{Pro: pro, Engine: eng, DBs: []*memory.Database{db}}, found: found}
+	return &env{f: &fx.Fixture{Pro: pro, Engine: eng, DBs: []*memory.Database{db}}, found: found, base: base}
 }
 
 // twin creates the in-process session that mirrors one client connection: same user,
@@ -71,7 +78,7 @@ func (e *env) twin() *fx.Sess {
 }
 
 func (e *env) start() error {
-	srv, err := srvfx.Start(e.f.Engine, e.f.Pro, srvfx.Opts{})
+	srv, err := srvfx.Start(e.f.Engine, e.f.Pro, srvfx.Opts{TeardownTimeout: teardownTimeout})
 	if err != nil {
 		return err
 	}
@@ -94,6 +101,18 @@ func (e *env) connect() (*wireConn, error) {
 	return &wireConn{c: c}, nil
 }
 
+// teardownTimeout bounds the teardown of one case. A liveness guard only (the machine may
+// be heavily loaded): a teardown that does not finish makes the shard inconclusive.
+const teardownTimeout = 90 * time.Second
+
+// close ends the case: clients closed, listener closed, accept loop joined, every
+// connection handler returned (srvfx.Close awaits SessionManager.WaitForClosedConnections),
+// engine closed - and then nothing of the case may be left running: the number of
+// goroutines must come back to what it was before the case built its engine and server.
+// That includes the listener's accept goroutine (server/listener.go NewListener), which
+// only returns once the socket is closed, the per-connection handler goroutines of vitess,
+// the row-spooling goroutines of the handler, and the harness's own client goroutines. A
+// case that does not get there is a liveness problem (inconclusive), not a verdict.
 func (e *env) close() {
 	if e.srv != nil {
 		if err := e.srv.Close(); err != nil {
@@ -101,6 +120,18 @@ func (e *env) close() {
 		}
 	}
 	e.f.Close()
+	deadline := time.Now().Add(teardownTimeout)
+	for wait := time.Millisecond; runtime.NumGoroutine() > e.base; {
+		if time.Now().After(deadline) {
+			buf := make([]byte, 1<<17)
+			buf = buf[:runtime.Stack(buf, true)]
+			srvfx.Inconclusive(fmt.Errorf("%d goroutines before the case, %d still there %v after its teardown:\n%s", e.base, runtime.NumGoroutine(), teardownTimeout, buf))
+		}
+		time.Sleep(wait)
+		if wait < 50*time.Millisecond {
+			wait *= 2
+		}
+	}
 }
 
 // ---------------------------------------------------------------------------------------
@@ -348,13 +379,19 @@ func compare(st *stats.Collector, s *stmt, exp *fx.Result, got *wireResult) (out
 	want := normEngineRows(exp.Schema, exp.Rows)
 	have := normWireRows(exp.Schema, got.Rows)
 	if d := diffRows(have, want, s.Ordered); d != "" {
-		if s.Binary && isTemporalDecimalsFinding(exp.Schema, have, want, s.Ordered) && kf.Suppress(st, kfTemporalDecimals) {
-			out.class = "known-" + kfTemporalDecimals
-			return
-		}
-		if s.AfterFailed && s.TextOnly && isFoundRowsAfterFailFinding(have, want) && kf.Suppress(st, kfFoundRowsAfterFail) {
-			out.class = "known-" + kfFoundRowsAfterFail
-			return
+		if s.Binary {
+			if ts, tm, ok := isTemporalDecimalsFinding(exp.Schema, have, want, s.Ordered, kf.Listed(kfTimestampDecimals), kf.Listed(kfTimeDecimals)); ok {
+				out.class = "known"
+				if ts {
+					kf.Suppress(st, kfTimestampDecimals)
+					out.class += "-" + kfTimestampDecimals
+				}
+				if tm {
+					kf.Suppress(st, kfTimeDecimals)
+					out.class += "-" + kfTimeDecimals
+				}
+				return
+			}
 		}
 		if len(s.NullCmpCols) > 0 && isValueRowNullCmpFinding(s.NullCmpCols, have, want) && kf.Suppress(st, kfValueRowNullCmp) {
 			out.class = "known-" + kfValueRowNullCmp
@@ -368,60 +405,70 @@ func compare(st *stats.Collector, s *stmt, exp *fx.Result, got *wireResult) (out
 	return
 }
 
-// isTemporalDecimalsFinding is the signature of C35-bin-temporal-decimals: binary
-// protocol, the results have the same shape, and every differing cell is a TIMESTAMP or
-// TIME column whose engine value has fractional seconds while the client value is that
-// value cut to whole seconds.
-func isTemporalDecimalsFinding(sch gsql.Schema, have, want [][]string, ordered bool) bool {
-	if len(have) != len(want) {
-		return false
+// isTemporalDecimalsFinding is the signature of C35-bin-timestamp-decimals and
+// C35-bin-time-decimals: binary protocol (checked by the caller), the results have the same
+// shape, and every differing cell is a TIMESTAMP resp. TIME column whose engine value has
+// fractional seconds while the client value is that value cut to whole seconds. allowTs /
+// allowTime say which of the two findings is listed; ts / tm report which of them explain
+// cells of this result.
+func isTemporalDecimalsFinding(sch gsql.Schema, have, want [][]string, ordered, allowTs, allowTime bool) (ts, tm, ok bool) {
+	if len(have) != len(want) || !(allowTs || allowTime) {
+		return false, false, false
+	}
+	allowed := func(j int) (isTs, isTime bool) {
+		if j >= len(sch) {
+			return false, false
+		}
+		switch sch[j].Type.Type() {
+		case mysqlTypeTimestamp:
+			return allowTs, false
+		case mysqlTypeTime:
+			return false, allowTime
+		}
+		return false, false
 	}
 	if !ordered {
 		// unordered results: cut the engine's values the same way and compare again
 		cut := make([][]string, len(want))
-		any := false
 		for i, r := range want {
 			c := append([]string(nil), r...)
 			for j := range c {
-				if j < len(sch) && isTsOrTime(sch[j].Type) {
-					if t, ok := cutFraction(c[j]); ok && t != c[j] {
-						c[j] = t
-						any = true
-					}
+				isTs, isTime := allowed(j)
+				if !isTs && !isTime {
+					continue
+				}
+				if t, ok := cutFraction(c[j]); ok && t != c[j] {
+					c[j] = t
+					ts, tm = ts || isTs, tm || isTime
 				}
 			}
 			cut[i] = c
 		}
-		return any && diffRows(have, cut, false) == ""
+		if (ts || tm) && diffRows(have, cut, false) == "" {
+			return ts, tm, true
+		}
+		return false, false, false
 	}
-	seen := false
 	for i := range want {
 		if len(have[i]) != len(want[i]) {
-			return false
+			return false, false, false
 		}
 		for j := range want[i] {
 			if valEq(have[i][j], want[i][j]) {
 				continue
 			}
-			if j >= len(sch) || !isTsOrTime(sch[j].Type) {
-				return false
+			isTs, isTime := allowed(j)
+			if !isTs && !isTime {
+				return false, false, false
 			}
 			t, ok := cutFraction(want[i][j])
 			if !ok || t == want[i][j] || t != have[i][j] {
-				return false
+				return false, false, false
 			}
-			seen = true
+			ts, tm = ts || isTs, tm || isTime
 		}
 	}
-	return seen
-}
-
-// isFoundRowsAfterFailFinding is the signature of C35-found-rows-after-failed-select for the
-// statement SELECT ROW_COUNT(), FOUND_ROWS() issued right after a failed statement: one row
-// on both sides, ROW_COUNT() agrees, FOUND_ROWS() is 1 for the client and 0 in process.
-func isFoundRowsAfterFailFinding(have, want [][]string) bool {
-	return len(have) == 1 && len(want) == 1 && len(have[0]) == 2 && len(want[0]) == 2 &&
-		valEq(have[0][0], want[0][0]) && have[0][1] == "n:1" && want[0][1] == "n:0"
+	return ts, tm, ts || tm
 }
 
 // isValueRowNullCmpFinding is the signature of C35-valuerow-null-cmp: the client received
@@ -466,14 +513,6 @@ func isValueRowNullCmpFinding(cols []int, have, want [][]string) bool {
 	return true
 }
 
-func isTsOrTime(t gsql.Type) bool {
-	switch t.Type() {
-	case mysqlTypeTimestamp, mysqlTypeTime:
-		return true
-	}
-	return false
-}
-
 // cutFraction truncates a canonical t:/d: value (microseconds) to whole seconds, towards
 // the earlier instant for t: and towards zero for d: (the way a formatter that drops the
 // fraction digits does).
@@ -505,6 +544,19 @@ func tableRoot(rt *rapid.T) int {
 
 func thorough() bool { return os.Getenv("VERIF_TIER") == "thorough" }
 
+// drawSearchDataset draws the data of a search case. The regions of the listed findings are
+// left out by construction, and only while they are listed (TestC35Known keeps re-confirming
+// their witnesses): fractional TIMESTAMP resp. TIME values, and (in stmts.go selValueRow)
+// value-row scans filtered with >= / <= on nullable columns.
+func drawSearchDataset(rt *rapid.T, st *stats.Collector, R int) *dataset {
+	for _, id := range []string{kfTimestampDecimals, kfTimeDecimals, kfValueRowNullCmp} {
+		if kf.Listed(id) {
+			st.Excluded(id)
+		}
+	}
+	return drawDataset(rt, R, !kf.Listed(kfTimestampDecimals), !kf.Listed(kfTimeDecimals))
+}
+
 func TestC35(t *testing.T) {
 	st := stats.New("C35", "")
 	defer st.Flush()
@@ -516,12 +568,7 @@ func TestC35(t *testing.T) {
 		st.Eval()
 		R := tableRoot(rt)
 		found := rapid.Bool().Draw(rt, "clientFoundRows")
-		// fractional TIMESTAMP/TIME values lie in the region of C35-bin-temporal-decimals:
-		// excluded by construction from the search (TestC35Known re-confirms the witness)
-		st.Excluded(kfTemporalDecimals)
-		// value-row scans filtered with >= / <= on nullable columns: C35-valuerow-null-cmp
-		st.Excluded(kfValueRowNullCmp)
-		d := drawDataset(rt, R, false)
+		d := drawSearchDataset(rt, st, R)
 		e := newEnv(found, rapid.Uint64().Draw(rt, "vseed"))
 		e.multi = rapid.Bool().Draw(rt, "multiStatements")
 		defer e.close()
@@ -544,9 +591,9 @@ func TestC35(t *testing.T) {
 			if s.TextOnly {
 				s.Binary = false
 				if prevFailed {
-					// ROW_COUNT()/FOUND_ROWS() right after a failed statement: region of
-					// C35-found-rows-after-failed-select, excluded here (TestC35Known covers it)
-					st.Excluded(kfFoundRowsAfterFail)
+					// ROW_COUNT()/FOUND_ROWS() right after a failed statement: not pinned down
+					// (see unpinnedFoundRowsAfterFail), replaced
+					st.Class(unpinnedFoundRowsAfterFail)
 					s = &stmt{Kind: "session-fn", SQL: "SELECT LAST_INSERT_ID()", Twin: "SELECT LAST_INSERT_ID()", Ordered: true, Size: 1}
 				}
 			}
@@ -615,18 +662,27 @@ func sizeClass(n int, class string) string {
 	return ">=5000"
 }
 
-// TestC35Known re-confirms the witnesses of the findings whose region TestC35 excludes by
-// construction, and keeps looking for other deviations inside that region: TIMESTAMP(6)
-// and TIME values with fractional seconds, read through both protocols.
+// TestC35Known re-confirms the witnesses of the findings, in both states of a finding: while
+// its id is listed as known the witness must still deviate in the recorded way (compare
+// then classifies the outcome as known-<id>; if no run of a witness does, the entry is
+// reported as stale, which is not a failure) and in no other way; once the id is not listed
+// (not yet triaged, or repaired in /repo) the witness must satisfy the property like every
+// other statement. It also keeps searching inside the regions the main search leaves out
+// while the findings are listed: TIMESTAMP(6) and TIME values with fractional seconds
+// through both protocols, value-row scans with >= / <= on nullable columns.
 func TestC35Known(t *testing.T) {
 	st := stats.New("C35", "known")
 	defer st.Flush()
+	hits := map[string]int{}
 	rapid.Check(t, func(rt *rapid.T) {
 		st.Eval()
-		d := drawDataset(rt, 12, true)
+		d := drawDataset(rt, 12, true, true)
 		e := newEnv(false, rapid.Uint64().Draw(rt, "vseed"))
 		defer e.close()
 		e.twin().MustExec(rt.Fatalf, d.setupSQL()...)
+		e.twin().MustExec(rt.Fatalf,
+			"CREATE TABLE wit (id INT PRIMARY KEY, ts TIMESTAMP(6), tm TIME, dt DATETIME(6))",
+			"INSERT INTO wit VALUES (1, '2020-01-02 03:04:05.678901', '12:34:56.789', '2020-01-02 03:04:05.678901'), (2, '2038-01-19 03:14:07.999999', '-00:00:00.000001', NULL), (3, '2001-09-09 01:46:40', '100:00:00', '1000-01-01 00:00:00')")
 		tw := e.twin()
 		if err := e.start(); err != nil {
 			srvfx.Inconclusive(fmt.Errorf("start server: %w", err))
@@ -636,32 +692,57 @@ func TestC35Known(t *testing.T) {
 			srvfx.Inconclusive(fmt.Errorf("connect: %w", err))
 		}
 		n := []int{1, 127, 128, 129, 144}[uni(rt, "n", 5)]
-		for _, s := range []*stmt{
-			{Kind: "frac-temporal", SQL: fmt.Sprintf("SELECT id, c_ts, c_time, c_dt6, c_dt3 FROM big ORDER BY id LIMIT %d", n), Ordered: true, Binary: rapid.Bool().Draw(rt, "binary1")},
-			{Kind: "frac-temporal", SQL: fmt.Sprintf("SELECT c_time, c_ts, id FROM big WHERE id < %d", n), Binary: rapid.Bool().Draw(rt, "binary2")},
-			{Kind: "frac-temporal", SQL: "SELECT TIME('12:34:56.789'), CAST('2020-01-02 03:04:05.678' AS DATETIME(3)), CAST('2020-01-02 03:04:05.678901' AS DATETIME(6))", Ordered: true, Binary: rapid.Bool().Draw(rt, "binary3")},
-			// per-session counters after a SELECT that failed while evaluating its select list
-			{Kind: "fail", SQL: "SELECT JSON_EXTRACT('{}', '$[')", Binary: rapid.Bool().Draw(rt, "binary7")},
-			{Kind: "session-fn", SQL: "SELECT ROW_COUNT(), FOUND_ROWS()", Ordered: true, TextOnly: true, AfterFailed: true},
-			// value-row scans filtered with >= / <= on nullable columns (columns of v.t<n>: id a u f s x dt y t8)
-			{Kind: "valuerow-null-cmp", SQL: fmt.Sprintf("SELECT * FROM v.t%d WHERE y >= 2000", sizes[uni(rt, "vn1", len(sizes)-2)]), NullCmpCols: []int{7}, Binary: rapid.Bool().Draw(rt, "binary4")},
-			{Kind: "valuerow-null-cmp", SQL: fmt.Sprintf("SELECT * FROM v.t%d WHERE a <= u", sizes[uni(rt, "vn2", len(sizes)-2)]), NullCmpCols: []int{1, 2}, Binary: rapid.Bool().Draw(rt, "binary5")},
-			{Kind: "valuerow-null-cmp", SQL: fmt.Sprintf("SELECT * FROM v.t%d WHERE 3 >= t8", sizes[uni(rt, "vn3", len(sizes)-2)]), NullCmpCols: []int{8}, Binary: rapid.Bool().Draw(rt, "binary6")},
-		} {
+		vn := func(label string) int { return sizes[1+uni(rt, label, len(sizes)-3)] } // 1 .. 1000 rows
+		type wit struct {
+			ids []string
+			s   *stmt
+		}
+		var wits []wit
+		both := func(ids []string, s stmt) {
+			for _, binary := range []bool{false, true} {
+				c := s
+				c.Binary = binary
+				wits = append(wits, wit{ids, &c})
+			}
+		}
+		// the fixed witnesses (each through the text and the binary protocol) ...
+		both([]string{kfTimestampDecimals}, stmt{Kind: "wit-timestamp", SQL: "SELECT id, ts, dt FROM wit ORDER BY id", Ordered: true})
+		both([]string{kfTimeDecimals}, stmt{Kind: "wit-time", SQL: "SELECT id, tm, dt FROM wit ORDER BY id", Ordered: true})
+		both([]string{kfTimeDecimals}, stmt{Kind: "wit-time", SQL: "SELECT TIME('12:34:56.789'), CAST('2020-01-02 03:04:05.678' AS DATETIME(3)), CAST('2020-01-02 03:04:05.678901' AS DATETIME(6))", Ordered: true})
+		both([]string{kfValueRowNullCmp}, stmt{Kind: "wit-valuerow-null-cmp", SQL: "SELECT * FROM v.t127 WHERE y >= 2000", NullCmpCols: []int{7}})
+		both([]string{kfValueRowNullCmp}, stmt{Kind: "wit-valuerow-null-cmp", SQL: "SELECT * FROM v.t256 WHERE a <= u", NullCmpCols: []int{1, 2}})
+		// ... and drawn statements inside the regions
+		both([]string{kfTimestampDecimals, kfTimeDecimals}, stmt{Kind: "frac-temporal", SQL: fmt.Sprintf("SELECT id, c_ts, c_time, c_dt6, c_dt3 FROM big ORDER BY id LIMIT %d", n), Ordered: true})
+		both([]string{kfTimestampDecimals, kfTimeDecimals}, stmt{Kind: "frac-temporal", SQL: fmt.Sprintf("SELECT c_time, c_ts, id FROM big WHERE id < %d", n)})
+		both([]string{kfValueRowNullCmp}, stmt{Kind: "valuerow-null-cmp", SQL: fmt.Sprintf("SELECT * FROM v.t%d WHERE 3 >= t8", vn("vn1")), NullCmpCols: []int{8}})
+		both([]string{kfValueRowNullCmp}, stmt{Kind: "valuerow-null-cmp", SQL: fmt.Sprintf("SELECT * FROM v.t%d WHERE f <= a", vn("vn2")), NullCmpCols: []int{3, 1}})
+		for _, w := range wits {
+			s := w.s
 			s.Twin = s.SQL
 			o := checkStmt(st, tw, wc, s)
 			if o.skip {
 				return
 			}
-			if o.msg != "" {
-				rt.Fatalf("C35 violated in the region of the findings %s / %s / %s: %s\n  statement: %s", kfTemporalDecimals, kfValueRowNullCmp, kfFoundRowsAfterFail, o.msg, s)
-			}
 			proto := "text"
 			if s.Binary {
 				proto = "binary"
+			}
+			if o.msg != "" {
+				rt.Fatalf("C35 violated by a witness statement of %v: %s\n  statement: %s", w.ids, o.msg, s)
+			}
+			for _, id := range w.ids {
+				if strings.Contains(o.class, id) {
+					hits[id]++
+				}
 			}
 			st.Class("outcome:" + o.class)
 			st.NonTrivial(nil, s.SQL, proto, o.class)
 		}
 	})
+	for _, id := range []string{kfTimestampDecimals, kfTimeDecimals, kfValueRowNullCmp} {
+		if kf.Listed(id) && hits[id] == 0 && !t.Failed() {
+			t.Logf("STALE known finding %s: its witnesses now satisfy the property", id)
+			st.Class("stale:" + id)
+		}
+	}
 }
